@@ -338,8 +338,7 @@ Section RoundTrip.
         replace (Z.of_N (len p) <? t)%Z with false by lia.
         replace (cap d <? Z.of_N (len p))%Z with false by lia.
         unfold inflate_claimed. rewrite inflate_deflate. cbn [z_out z_clean orb].
-        rewrite N2Z.id. replace (len p <? len p) with false by lia.
-        rewrite firstn_len. reflexivity.
+        rewrite N2Z.id, N.eqb_refl. reflexivity.
   Qed.
 
   Notation premises t lvl d := (fun p => starts_with_id p = true /\ fitsb deflate t lvl d p = true).
